@@ -32,74 +32,111 @@ def run(ctx, rep):
 
 
 def read_rules(ctx, rep, impl):
+    """multi-site formulation (private helpers are inlined): any number of decode / read_buf / return sites"""
     is_async = impl == "tokio"
     b = net.body(ctx, rep, "R5.1", impl, "read")
     if b is None:
         return
-    D = b.calls_to(r"Codec::decode$")
+    DEC = b.calls_to(r"Codec::decode$")
     RB = [(bb, t) for bb, t in b.calls() if (callee(t)[0] or "").endswith("framed::Framed::read_buf")]
-    rep.check("R5.1", "%s:anchors" % impl, len(D) == 1 and len(RB) == 1, "%s read: expected one Codec::decode and one read_buf call (found %d / %d)" % (impl, len(D), len(RB)), b.loc(),
-              sample={"impl": impl, "decode_sites": len(D), "read_buf_sites": len(RB)})
-    if len(D) != 1 or len(RB) != 1:
+    oks = net.packet_ok_returns(b)
+    rep.check("R5.1", "%s:anchors" % impl, len(DEC) >= 1 and len(RB) >= 1 and len(oks) >= 1,
+              "%s read: expected Codec::decode, read_buf and `return Ok(packet)` sites (found %d / %d / %d)" % (impl, len(DEC), len(RB), len(oks)), b.loc(),
+              sample={"impl": impl, "decode_sites": len(DEC), "read_buf_sites": len(RB), "packet_returns": len(oks)})
+    if not (DEC and RB and oks):
         return
-    dbb, dt = D[0]
-    rbb, rt = RB[0]
-    rep.check("R5.1", "%s:decode-args" % impl, is_self_field(b.origin(dt["args"][0]), "codec") and is_self_field(b.origin(dt["args"][1]), "buffer"),
-              "decode must be applied to self.codec and self.buffer", b.loc(dt["line"]), nontrivial=False)
-    # edges that justify reading more
-    edges = set()
-    # (a) buffer.is_empty() is true
+    dblocks = {bb for bb, _t in DEC}
+    rblocks = {bb for bb, _t in RB}
+    for n, (dbb, dt) in enumerate(DEC):
+        rep.check("R5.1", "%s:decode-args:%d" % (impl, n), is_self_field(b.origin(dt["args"][0]), "codec") and is_self_field(b.origin(dt["args"][1]), "buffer"),
+                  "decode must be applied to self.codec and self.buffer", b.loc(dt["line"]), nontrivial=False)
+    # edges on which the buffer is known to be empty
+    empty_edges = set()
     for sbb, targets, otherwise, o in b.switch_on(lambda o: True):
         neg = False
         oo = o
         if oo[0] == "un" and oo[1] == "Not":
             neg = True
             oo = oo[2]
-        if oo[0] == "call" and oo[1].endswith("BytesMut::is_empty") and oo[3] and is_self_field(oo[3][0], "buffer") and b.dominates(sbb, dbb):
-            # value 0 edge is `false` of the tested expression
+        if oo[0] == "call" and oo[1].endswith("BytesMut::is_empty") and oo[3] and is_self_field(oo[3][0], "buffer"):
             zero_t = targets.get(0)
-            nonzero_t = otherwise
-            empty_t = zero_t if neg else nonzero_t
-            edges.add((sbb, empty_t))
-    n_empty = len(edges)
-    # (b) decode()? returned None
-    tr = b.try_of_call(dbb)
+            empty_t = zero_t if neg else otherwise
+            empty_edges.add((sbb, empty_t))
+    # edges on which a decode result is known to be None: direct match on decode()?'s Option
     none_edges = set()
-    if tr:
-        def pred(o, tb=tr[0]):
-            return o[0] == "discr" and o[1][0] == "downcast" and o[1][3] == "Continue" or (o[0] == "discr" and o[1][0] == "field" and net.mentions_call_bb(o[1], tb))
-        for sbb, targets, otherwise, o in b.switch_on(lambda o: o[0] == "discr" and net.mentions_call_bb(o[1], tr[0]) and not (o[1][0] == "call")):
-            none_edges.add((sbb, targets.get(0, otherwise)))
-    rep.check("R5.1", "%s:edges" % impl, n_empty == 1 and len(none_edges) == 1,
-              "expected one `buffer.is_empty()` test dominating decode and one match on decode's Option (found %d / %d)" % (n_empty, len(none_edges)), b.loc(dt["line"]))
-    allowed = edges | none_edges
-    reach = b.reach(0, avoid_edges=allowed)
-    rep.check("R5.1", "%s:decode-before-read" % impl, rbb not in reach and len(allowed) == 2,
-              "the transport can be read on a path that neither found the buffer empty nor got `None` from decode: buffered frames would be delayed or reordered",
-              b.loc(rt["line"]), sample={"impl": impl, "justifying_edges": sorted(allowed)})
+    for dbb, dt in DEC:
+        tr = b.try_of_call(dbb)
+        if tr:
+            for sbb, targets, otherwise, o in b.switch_on(lambda o, tb=tr[0]: o[0] == "discr" and net.mentions_call_bb(o[1], tb) and not (o[1][0] == "call")):
+                none_edges.add((sbb, targets.get(0, otherwise)))
+    direct = len(none_edges) >= 1
+    for n, (rbb, rt) in enumerate(RB):
+        if direct:
+            reach = b.reach(0, avoid_edges=empty_edges | none_edges)
+            why = "neither found the buffer empty nor got `None` from decode"
+        else:
+            # decode's Option is matched after passing through a helper's return value: the statically visible part is that
+            # every path to the transport read runs decode (or finds the buffer empty) first
+            reach = b.reach(0, avoid_blocks=dblocks, avoid_edges=empty_edges)
+            why = "neither found the buffer empty nor ran decode"
+        rep.check("R5.1", "%s:decode-before-read:%d" % (impl, n), rbb not in reach,
+                  "the transport can be read on a path that %s: buffered frames would be delayed or reordered" % why, b.loc(rt["line"]),
+                  sample={"impl": impl, "empty_edges": sorted(empty_edges), "none_edges": sorted(none_edges), "direct_option_match": direct})
+        # and again before the next transport read
+        nxt = b.reach(rt["target"], avoid_blocks=dblocks, avoid_edges=empty_edges) if rt.get("target") is not None else set()
+        rep.check("R5.1", "%s:decode-between-reads:%d" % (impl, n), not (rblocks & nxt),
+                  "two transport reads can follow each other without decode (or an empty-buffer test) in between", b.loc(rt["line"]))
+    # R5.6 a decoded packet is handed out before any further transport read
+    opt_sw = [s for s in b.switch_on(lambda o: o[0] == "discr" and b.may_mention(o[1], r"Codec::decode$") and o[1][0] != "call")
+              if any("Option" in (ty or "") for ty in [b.locals[0]["ty"]]) or True]
+    n56 = 0
+    for sbb, targets, otherwise, o in opt_sw:
+        # Option switch: Some = 1
+        if 1 not in targets and otherwise is None:
+            continue
+        oty = fmt_origin(o)
+        if "Continue" in oty and "Some" not in oty and not o[1][0] == "phi" and o[1][0] == "call":
+            continue
+        some_t = targets.get(1)
+        if some_t is None:
+            continue
+        # only switches on Option<Packet> (not on the ControlFlow of `?`): the Some edge must be able to reach a packet return
+        if not (set(oks) & b.reach(some_t)):
+            continue
+        n56 += 1
+        lost = b.reach(some_t, avoid_blocks=set(oks)) & rblocks
+        rep.check("R5.6", "%s:decoded-packet-delivered:%d" % (impl, n56 - 1), not lost,
+                  "after decode produced a packet the transport can be read again before that packet is returned (the packet is dropped)", b.loc(),
+                  sample={"impl": impl, "switch_block": sbb})
+    rep.check("R5.6", "%s:sites" % impl, n56 >= 1, "no match on decode's Option found", b.loc(), nontrivial=False)
     # R5.5 decode error propagated
-    rep.check("R5.5", "%s:decode-error" % impl, tr is not None and b.ret_kinds(tr[3]) == {"residual"}, "a decode error must be returned with `?`", b.loc(dt["line"]))
-    # R5.2 zero / non-zero / error
+    for n, (dbb, dt) in enumerate(DEC):
+        rep.check("R5.5", "%s:decode-error:%d" % (impl, n), b.error_returned(dbb), "a decode error must be returned to the caller", b.loc(dt["line"]))
+    # R5.2 zero / non-zero / error, per read_buf site
+    for n, (rbb, rt) in enumerate(RB):
+        zero_rule(ctx, rep, b, impl, is_async, rbb, rt, n)
+
+
+def zero_rule(ctx, rep, b, impl, is_async, rbb, rt, n):
     sw = net.ready_value_switch(b, rbb, is_async)
     if is_async:
         # timeout(...).await? yields Result<usize>: the outer `?` handles Elapsed; find the switch on that inner Result
-        tmo = b.calls_to(r"tokio::time::timeout::timeout$")
+        tmo = [x for x in b.calls_to(r"tokio::time::timeout::timeout$") if net.mentions_call_bb(b.origin(x[1]["args"][1]), rbb)]
         sw = None
         if len(tmo) == 1:
             tr2 = net.try_of(b, tmo[0][0], True)
             if tr2:
                 r = b.switch_on(lambda o: o[0] == "discr" and net.mentions_call_bb(o[1], tr2[0]) and o[1][0] != "call")
                 sw = r[0] if r else None
-            rep.check("R5.2", "%s:timeout-wraps-read_buf" % impl, net.mentions_call_bb(b.origin(tmo[0][1]["args"][1]), rbb),
-                      "the timeout must wrap the read_buf future", b.loc(tmo[0][1]["line"]), nontrivial=False)
+        rep.check("R5.2", "%s:timeout-wraps-read_buf:%d" % (impl, n), len(tmo) == 1, "the timeout must wrap the read_buf future", b.loc(rt["line"]), nontrivial=False)
     if sw is None:
-        rep.fail("R5.2", "%s:result-match" % impl, "the result of read_buf is not matched on", b.loc(rt["line"]))
+        rep.fail("R5.2", "%s:result-match:%d" % (impl, n), "the result of read_buf is not matched on", b.loc(rt["line"]))
         return
     sbb, targets, otherwise, o = sw
     ok_t, err_t = targets.get(0), targets.get(1)
     if err_t is None:
         err_t = otherwise
-    # inside Ok: switch on the count == 0
+
     def is_ok_payload(oo):
         x = oo
         if x[0] == "field":
@@ -107,23 +144,28 @@ def read_rules(ctx, rep, impl):
         return x[0] == "downcast" and x[3] == "Ok" and net.mentions_call_bb(oo, rbb)
     zs = [s for s in b.switch_on(is_ok_payload) if b.dominates(sbb, s[0])]
     zsw = [s for s in zs if 0 in s[1]]
-    rep.check("R5.2", "%s:zero-test" % impl, len(zsw) == 1, "expected one test of the byte count against 0 (found %d)" % len(zsw), b.loc(rt["line"]))
+    rep.check("R5.2", "%s:zero-test:%d" % (impl, n), len(zsw) == 1, "expected one test of the byte count against 0 (found %d)" % len(zsw), b.loc(rt["line"]))
     if len(zsw) == 1:
         zbb, ztargets, zother, zo = zsw[0]
         kz = b.ret_kinds(ztargets[0])
-        rep.check("R5.2", "%s:zero-is-disconnect" % impl, kz == {"Err"}, "a transport read of 0 bytes must return Err(Disconnected) (found exits %s)" % sorted(kz), b.loc(rt["line"]),
+        rep.check("R5.2", "%s:zero-is-disconnect:%d" % (impl, n), kz == {"Err"}, "a transport read of 0 bytes must return Err(Disconnected) (found exits %s)" % sorted(kz), b.loc(rt["line"]),
                   sample={"impl": impl, "zero_exits": sorted(kz)})
-        # the Err is the Disconnected variant
         disc = False
         for i in b.reach(ztargets[0]):
             for st in b.blocks[i]["stmts"]:
                 if st["k"] == "assign" and st["rv"]["k"] == "agg" and st["rv"].get("adt") == "insim::error::Error" and st["rv"]["vname"] == "Disconnected":
                     disc = True
-        rep.check("R5.2", "%s:disconnected-variant" % impl, disc, "the zero-read exit must construct Error::Disconnected", b.loc(rt["line"]), nontrivial=False)
+        rep.check("R5.2", "%s:disconnected-variant:%d" % (impl, n), disc, "the zero-read exit must construct Error::Disconnected", b.loc(rt["line"]), nontrivial=False)
+        # a non-zero read goes on (back to decode): it must not return without having tried to decode, and must not be an error
         kn = b.ret_kinds(zother)
-        rep.check("R5.2", "%s:nonzero-continues" % impl, kn == {"loop"}, "a non-zero read must go round the loop again (found exits %s)" % sorted(kn), b.loc(rt["line"]))
+        dblocks = {bb for bb, _t in b.calls_to(r"Codec::decode$")}
+        rblocks = {bb for bb, t2 in b.calls() if (callee(t2)[0] or "").endswith("framed::Framed::read_buf")}
+        esc = b.reach_v(avoid_blocks=dblocks, via=zother, avoid_after=rblocks)
+        rets = [i for i in esc if b.blocks[i]["term"] and b.blocks[i]["term"]["k"] == "return"]
+        rep.check("R5.2", "%s:nonzero-continues:%d" % (impl, n), not rets,
+                  "after a non-zero read the function can return without running decode on the new bytes (exits %s)" % sorted(kn), b.loc(rt["line"]))
     ke = b.ret_kinds(err_t) if err_t is not None else set()
-    rep.check("R5.2", "%s:error-returned" % impl, ke == {"Err"} or ke == {"residual"}, "a transport error must be returned (found exits %s)" % sorted(ke), b.loc(rt["line"]))
+    rep.check("R5.2", "%s:error-returned:%d" % (impl, n), ke == {"Err"} or ke == {"residual"}, "a transport error must be returned (found exits %s)" % sorted(ke), b.loc(rt["line"]))
 
 
 def read_buf_rules(ctx, rep, impl):
